@@ -196,7 +196,12 @@ impl DebugInformation {
                     .ok_or(UnitNotFound(ecx.location().global_pc))?;
                 let evaluator =
                     resolve_unit_call!(&self.inner, unit, evaluator, debugee, self.dwarf());
-                let expr_result = evaluator.evaluate(ecx, expr.get(&self.eh_frame)?)?;
+                // the expression is evaluated over the registers of the frame being unwound;
+                // asking the evaluator to restore them itself would unwind this frame again
+                let resolver = eval::ExternalRequirementsResolver::new()
+                    .with_entry_registers(ecx.pid_on_focus(), registers.clone());
+                let expr_result =
+                    evaluator.evaluate_with_resolver(resolver, ecx, expr.get(&self.eh_frame)?)?;
 
                 Ok((expr_result.into_scalar::<usize>(AddressKind::Value)?).into())
             }
